@@ -106,6 +106,9 @@ def run_check(chk: PropertyCheck, tier: str) -> int:
     rep.cov["checker_cmd"] = f"cd /verif/coq && make props/{chk.pid}.vo  (coqc 8.16.1, full .vo)"
     rep.cov["repo_head"] = common.git_head(common.REPO)
 
+    for old in common.REPLAYS.glob(f"{chk.pid}-*.json"):
+        old.unlink()
+
     bad = hygiene_gate()
     if bad:
         rep.violation({"broken": "hygiene gate", "hits": bad}, found_input=False)
